@@ -177,16 +177,28 @@ class Oracle:
 
     # ------------------------------------------------------------ rating
     def rater(self, rargs):
-        from nanite.rate import get_rater
+        """the STANDALONE rater, assembled from the public pieces (not
+        through the convenience function the curve method uses)"""
+        from nanite.rate.rater import IndentationRater
+        from nanite.rate.regressors import reg_dict
+        from nanite.rate.rater import get_available_training_sets
         key = rater_key(rargs)
         if key not in self.raters:
             with warnings.catch_warnings():
                 warnings.simplefilter("ignore")
-                self.raters[key] = get_rater(
-                    regressor=rargs["regressor"],
-                    training_set=copy.deepcopy(rargs["training_set"]),
-                    names=copy.deepcopy(rargs["names"]),
-                    lda=rargs["lda"])
+                ts = rargs["training_set"]
+                names = copy.deepcopy(rargs["names"])
+                if isinstance(ts, tuple):
+                    ts = copy.deepcopy(ts)
+                else:
+                    if ts in get_available_training_sets():
+                        ts = IndentationRater.get_training_set_path(label=ts)
+                    ts = IndentationRater.load_training_set(path=ts,
+                                                            names=names)
+                reg_cl, kw = reg_dict[rargs["regressor"]]
+                self.raters[key] = IndentationRater(
+                    regressor=reg_cl(**dict(kw)), training_set=ts,
+                    names=names, lda=rargs["lda"])
         return self.raters[key]
 
     def rate(self, cid, pipe, settings, rargs):
@@ -214,7 +226,17 @@ def rater_key(rargs):
         tsk = ("mem", digest(np.asarray(ts[0], float)),
                digest(np.asarray(ts[1], float)))
     else:
-        tsk = ("path", str(ts))
+        # a directory is identified by its content
+        import hashlib
+        import pathlib
+        h = hashlib.sha1()
+        pth = pathlib.Path(str(ts))
+        if pth.is_dir():
+            for f in sorted(pth.glob("*")):
+                if f.is_file():
+                    h.update(f.name.encode())
+                    h.update(f.read_bytes())
+        tsk = ("path", str(ts), h.hexdigest())
     names = rargs["names"]
     return (rargs["regressor"], tsk,
             None if names is None else tuple(sorted(names)),
